@@ -15,7 +15,8 @@ TITLE = 'xref aliasing, order independence, termination'
 RULE = ('data nodes (scalars, lists, mappings, !call producing fresh objects) spread over 1-3 documents and up to 12 (chain mode: 30) '
         '!xref/!ref nodes at top level, inside a mapping, inside a list and inside call arguments, each pointing to a data node, an element '
         'inside a container, a value that evaluates to something falsy, another reference, a later-defined path, a missing path (also one that would be a valid subscript of the evaluated value of its prefix), itself, its own '
-        'container or closing a cycle; optionally a previous build with the same EvalContext; '
+        'container or closing a cycle; optionally an earlier document holding a plain string spelled like the referenced path (or another '
+        'scalar) under the key of a reference; optionally a previous build with the same EvalContext; '
         'non-trivial = identity checked on a fresh mutable target through a chain of length >=2 or with fan-in >=2, or the graph has a '
         'cycle / dangling edge; distinct = hash of the case.  Every build runs under a budget of %d line events.' % 400000)
 BUDGET = {'quick': (4, 250), 'thorough': (16, 5000)}
@@ -89,7 +90,14 @@ def _case(draw):
     order = draw(st.permutations(['d1', 'd2', 'd3', 'f1', 'f2', 'box', 'arr', 'e1', 'e2', 'e0', 's1'] + [s['path'][0] for s in slots if len(s['path']) == 1]))
     ndocs = draw(st.integers(1, 3))
     split = [draw(st.integers(0, ndocs - 1)) for _ in order]
-    return {'slots': slots, 'order': list(order), 'split': split, 'ndocs': ndocs, 'prebuild': draw(st.integers(0, 2)) == 0}
+    # an earlier document may already hold something else under the key of a top-level reference: a plain string spelled exactly like
+    # the referenced path, another string, or null - the reference written later replaces it like any value replaces a scalar
+    before = []
+    if ndocs >= 2 and draw(st.integers(0, 2)) == 0:
+        tops = [i for i, s in enumerate(slots) if len(s['path']) == 1]
+        for i in draw(st.lists(st.sampled_from(tops), max_size=2, unique=True)) if tops else []:
+            before.append([i, draw(st.sampled_from(['pathtext', 'pathtext', 'other', 'null'])), draw(st.integers(0, 5))])
+    return {'slots': slots, 'order': list(order), 'split': split, 'ndocs': ndocs, 'prebuild': draw(st.integers(0, 2)) == 0, 'before': before}
 
 
 def strategy():
@@ -115,8 +123,16 @@ def docs(case):
         if len(s['path']) == 1:
             top[s['path'][0]] = ref(s)
     out = [[] for _ in range(case['ndocs'])]
+    where = {}
     for k, d in zip(case['order'], case['split']):
         out[d].append([k, top[k]])
+        where[k] = d
+    for i, kind, r in case.get('before', []):
+        key = slots[i]['path'][0]
+        d = where.get(key, 0)
+        if d >= 1:
+            node = tdoc.sc(pstr(slots[i]['to']), q='single') if kind == 'pathtext' else tdoc.sc('some text') if kind == 'other' else tdoc.sc(None)
+            out[r % d].append([key, node])
     return [tdoc.mp(items) for items in out if items]
 
 
@@ -171,6 +187,8 @@ def run_case(case):
     src = '\nsources:\n' + '\n'.join(texts)
     verdict, info = analyse(case)
     labels = {'docs=%d' % len(ds), 'expect-' + verdict, 'refs=%s' % ('>12' if len(case['slots']) > 12 else '<=12')}
+    if any("'" + pstr(s['to']) + "'" in t for s in case['slots'] for t in texts):
+        labels.add('reference-written-over-a-string-spelled-like-its-path')
     ctx = None
     if case.get('prebuild') and verdict == 'ok':
         # the same evaluation context has already evaluated this config once: nothing of that may show in the second build
